@@ -271,7 +271,7 @@ impl Property for C04 {
             let i = rng.below(n);
             let op = match rng.below(20) {
                 0..=1 => Op::Clock { i, t: rng.below(CLOCKS.len()) },
-                2..=7 => Op::Write { i, a: rng.below(3), key: gen_key(rng), c: rng.below(3) },
+                2..=7 => Op::Write { i, a: rng.below(3), key: gen_key(rng), c: if rng.chance(1, 12) { 100 + rng.below(3) } else { rng.below(3) } },
                 8..=9 => Op::Delete { i, a: rng.below(3), key: gen_key(rng) },
                 10..=14 => Op::Deliver { i, w: rng.below(64) },
                 15..=17 => {
@@ -324,6 +324,20 @@ impl Property for C04 {
                         if *i < n {
                             sw.clocks[*i] = CLOCKS[*t % CLOCKS.len()];
                         }
+                    }
+                    Op::Write { i, a, key, c } if *i < n && *c >= 100 => {
+                        // a local write of a half-empty or empty shape: refused, nothing is written
+                        let author = &sw.keys.authors[*a % 3];
+                        let (hash, len) = crate::c02::half_empty((*c - 100) as u8);
+                        let now = sw.clocks[*i];
+                        set_clock(now);
+                        let e = iroh_docs::SignedEntry::from_parts(ns, author, key, iroh_docs::sync::Record::new(hash, len, now));
+                        let mut r = sw.stores[*i].store.open_replica(&nsid)?;
+                        let res = sw.rt.block_on(r.insert(key, author, hash, len));
+                        drop(r);
+                        sw.stores[*i].store.close_replica(nsid);
+                        sw.lines.push(Line::model(format!("wrefused 1 {i} {}", honest_fp_tok(&e)), insert_result(res)));
+                        sw.dump_lines(*i)?;
                     }
                     Op::Write { i, a, key, c } if *i < n => {
                         let author = &sw.keys.authors[*a % 3];
